@@ -97,6 +97,9 @@ def gen_lockstep(seed):
     # the same verb at the same instant in sessions whose state differs: one logged in, one not,
     # one in the middle of a rename ...
     common_verbs = [rnd.choice(LOCK_POOL) for _ in range(rounds)]
+    if rnd.random() < 0.3:
+        # login-heavy rounds: the same accounts taken, botched and taken again by several sessions
+        common_verbs = [rnd.choice(["USER u1", "PASS bad", "PASS pw1", "USER u1", "USER u2", "PWD", "USER anonymous"]) for _ in range(rounds)]
     scripts = []
     for i in range(n):
         pre = rnd.choice([[], ["USER anonymous", "CWD /s{i}"], ["USER u1"], ["USER u1", "PASS pw1", "CWD /s{i}"], ["USER u2", "CWD /s{i}", "RNFR /s{i}/a.bin"], ["USER anonymous", "CWD /s{i}", "EPSV"]])
